@@ -3,7 +3,7 @@
 grammar-generated targets (schemes x userinfo x hosts x port texts x paths) and seeded random/mutated ones; TLC evaluates
 UriModel.tla on every result (P-layer: bad port => rejected; accepted => lower-case host without empty labels, port in
 1..65535 equal to the written decimal port or the scheme default, canonical form re-parses to the same fields) and
-UriModelImpl.tla (I-layer: today's decisions incl. atoi port reading, on the simple subset)."""
+UriModelImpl.tla (I-layer: today's decisions, digits-only port reading, on the simple subset)."""
 import itertools
 import json
 import os
